@@ -140,6 +140,13 @@ func TestVerifDriver(t *testing.T) {
 		}
 		w := strings.Fields(line)
 		res := "bad-op"
+		// an operation still running after 90 s is wedged: say so and stop instead of sitting out
+		// the test timeout (the main goroutine is stuck, so nobody else writes to `out`)
+		wedged := time.AfterFunc(90*time.Second, func() {
+			fmt.Fprintln(out, "hang")
+			out.Flush()
+			os.Exit(3)
+		})
 		if len(w) == 8 && w[0] == "rw" {
 			res = exchange(client, w[1:])
 		} else if len(w) == 2 && w[0] == "rws" {
@@ -153,6 +160,7 @@ func TestVerifDriver(t *testing.T) {
 		} else if len(w) == 2 && w[0] == "bc" {
 			res = buildOnly(w[1])
 		}
+		wedged.Stop()
 		fmt.Fprintln(out, res)
 	}
 }
